@@ -35,6 +35,23 @@ static void build_template()
     audio::load_corpus();
     build_languages();
     err_set_loglevel(ERR_ERROR);
+    {
+        std::map<std::string, std::vector<std::string>> by_tail;
+        for (const char *lg : { "en", "fr" }) {
+            const Lang &L = lang(lg);
+            for (auto &w : L.vocab) {
+                auto it = L.prons.find(w);
+                if (it == L.prons.end() || it->second.size() < 2)
+                    continue;
+                by_tail[std::string(lg) + ":" + it->second[it->second.size() - 2] + " " + it->second.back()].push_back(w);
+            }
+        }
+        std::vector<std::vector<std::string>> groups;
+        for (auto &kv : by_tail)
+            if (kv.second.size() >= 2)
+                groups.push_back(kv.second);
+        grammar::set_rhyme_groups(groups);
+    }
     for (auto &spec : std::vector<std::pair<std::string, int>> { { "en", 2 }, { "enc", 1 }, { "fr", 1 } })
         for (int i = 0; i < spec.second; ++i) {
             decoder_t *d = make_decoder(spec.first);
@@ -65,6 +82,8 @@ struct DecState {
     int probe_id = -1;
     int n_queries = 0, n_calls = 0;
     bool sched_noncanonical = false;
+    bool scores_commensurable = false; // the active search was built with wip = pip = 1
+    int align_failed_at_frame = -1;
 };
 
 struct Exec {
@@ -171,6 +190,113 @@ struct Exec {
             out.probes[final ? "dec.final_result" : "dec.partial_result"]++;
     }
 
+    // ---- C04: the alignment is a consistent words > phones > states hierarchy
+    void check_alignment(DecState &s, const Rec &r, int opi)
+    {
+        if (!r.align_asked || r.align_null)
+            return;
+        out.checks++;
+        auto bad = [&](const char *inv, const std::string &trig, const std::string &msg) { viol("C04", inv, trig, msg, opi); };
+        // words = dictionary words of the segmentation read at the same instant
+        std::vector<const SegR *> dw;
+        for (auto &g : r.segs)
+            if (dict_wordid(s.d->dict, g.word.c_str()) != BAD_S3WID)
+                dw.push_back(&g);
+        if (dw.size() != r.words.size()) {
+            bad("words_vs_segmentation", "count", "alignment has " + std::to_string(r.words.size()) + " words, the segmentation " + std::to_string(dw.size()) + " dictionary words");
+            return;
+        }
+        const int n_emit = bin_mdef_n_emit_state(s.d->acmod->mdef);
+        size_t pi = 0, si = 0;
+        int wnext = 0;
+        bool score_clause = s.d->acmod->compallsen && s.scores_commensurable;
+        for (size_t w = 0; w < r.words.size(); ++w) {
+            const AlEnt &we = r.words[w];
+            const SegR &g = *dw[w];
+            std::string where = "word " + std::to_string(w) + " '" + we.name + "'";
+            if (we.name != g.word)
+                bad("words_vs_segmentation", "name", where + " but the segmentation says '" + g.word + "'");
+            if (we.start != g.sf || we.dur != g.ef - g.sf + 1)
+                bad("words_vs_segmentation", "frames", where + " spans start " + std::to_string(we.start) + " dur " + std::to_string(we.dur) + ", segmentation [" +
+                        std::to_string(g.sf) + "," + std::to_string(g.ef) + "]");
+            if (we.start != wnext)
+                bad("contiguity", "word", where + " starts at " + std::to_string(we.start) + ", previous word ended before " + std::to_string(wnext));
+            if (we.dur <= 0)
+                bad("positive_duration", "word", where + " has duration " + std::to_string(we.dur));
+            wnext = we.start + we.dur;
+            // phones = dictionary pronunciation
+            std::vector<std::string> pron;
+            {
+                char *ph = decoder_lookup_word(s.d, we.name.c_str());
+                if (ph) {
+                    std::string t = ph, cur;
+                    for (char c : t + " ") {
+                        if (c == ' ') {
+                            if (!cur.empty())
+                                pron.push_back(cur);
+                            cur.clear();
+                        } else
+                            cur += c;
+                    }
+                    ckd_free(ph);
+                }
+            }
+            if ((size_t)we.nchild != pron.size())
+                bad("phones_vs_dictionary", "count", where + " has " + std::to_string(we.nchild) + " phones, the dictionary pronunciation " + std::to_string(pron.size()));
+            int pnext = we.start;
+            int64_t psum = 0, pdur = 0;
+            for (int k = 0; k < we.nchild && pi < r.phones.size(); ++k, ++pi) {
+                const AlEnt &pe = r.phones[pi];
+                std::string pw = where + " phone " + std::to_string(k) + " '" + pe.name + "'";
+                if ((size_t)k < pron.size() && pe.name != pron[(size_t)k])
+                    bad("phones_vs_dictionary", "name", pw + " but the dictionary says '" + pron[(size_t)k] + "'");
+                if (pe.start != pnext)
+                    bad("partition", "phone_start", pw + " starts at " + std::to_string(pe.start) + ", expected " + std::to_string(pnext));
+                if (pe.dur <= 0)
+                    bad("positive_duration", "phone", pw + " has duration " + std::to_string(pe.dur));
+                pnext = pe.start + pe.dur;
+                psum += pe.score;
+                pdur += pe.dur;
+                if (pe.nchild != n_emit)
+                    bad("states_per_phone", "count", pw + " has " + std::to_string(pe.nchild) + " states, the model has " + std::to_string(n_emit) + " emitting states per phone");
+                int snext = pe.start;
+                int64_t ssum = 0, sdur = 0;
+                for (int q = 0; q < pe.nchild && si < r.states.size(); ++q, ++si) {
+                    const AlEnt &se = r.states[si];
+                    std::string sw = pw + " state " + std::to_string(q);
+                    if (se.start != snext)
+                        bad("partition", "state_start", sw + " starts at " + std::to_string(se.start) + ", expected " + std::to_string(snext));
+                    if (se.dur <= 0)
+                        bad("positive_duration", "state", sw + " has duration " + std::to_string(se.dur));
+                    snext = se.start + se.dur;
+                    ssum += se.score;
+                    sdur += se.dur;
+                }
+                if (sdur != pe.dur)
+                    bad("partition", "state_durations", pw + " lasts " + std::to_string(pe.dur) + " frames, its states " + std::to_string(sdur));
+                if (ssum != pe.score)
+                    bad("score_additivity", "phone", pw + " scores " + std::to_string(pe.score) + ", its states sum to " + std::to_string(ssum));
+            }
+            if (pdur != we.dur)
+                bad("partition", "phone_durations", where + " lasts " + std::to_string(we.dur) + " frames, its phones " + std::to_string(pdur));
+            if (psum != we.score)
+                bad("score_additivity", "word", where + " scores " + std::to_string(we.score) + ", its phones sum to " + std::to_string(psum));
+            // word score = acoustic part of the score the search assigned to that word over the same frames; only where
+            // the two passes are commensurable by construction: all senones computed, no insertion penalties in ascr
+            if (score_clause) {
+                out.probes["align.score_clause_evaluated"]++;
+                // trigger: where the search's own context approximations sit (see known_findings.json)
+                const char *trig = pron.size() == 1 ? "one_phone_word" : w + 1 == r.words.size() ? "last_word" : w == 0 ? "first_word" : "inner_word";
+                if (we.score != g.ascr)
+                    bad("word_score_vs_search", trig, where + " alignment score " + std::to_string(we.score) + " != first-pass acoustic score " +
+                            std::to_string(g.ascr) + " over frames [" + std::to_string(g.sf) + "," + std::to_string(g.ef) + "]");
+            }
+        }
+        if (pi != r.phones.size() || si != r.states.size())
+            bad("partition", "orphans", "phones or states not under any word: " + std::to_string(r.phones.size() - pi) + " / " + std::to_string(r.states.size() - si));
+        out.probes["align.hierarchy_checked"]++;
+    }
+
     // ---- ops
     bool load_grammar(DecState &s, const Json &g, int opi)
     {
@@ -196,6 +322,10 @@ struct Exec {
         out.events.i64(rv);
         if (rv == 0) {
             s.has_grammar = true;
+            // ... and with pruning disabled: under any beam the first pass may have lost the best state sequence inside a
+            // word that the (unpruned) aligner finds, so the two scores differ by construction
+            s.scores_commensurable = config_float(s.d->config, "wip") == 1.0 && config_float(s.d->config, "pip") == 1.0 && config_float(s.d->config, "beam") == 0.0 &&
+                config_float(s.d->config, "pbeam") == 0.0 && config_float(s.d->config, "wbeam") == 0.0 && config_int(s.d->config, "maxhmmpf") == -1;
             s.nfa = Nfa::from_json(g["nfa"]);
             s.gkind = kind;
             out.probes["dec.grammar_loaded." + kind]++;
@@ -253,6 +383,11 @@ struct Exec {
             capture_alignment(s.d, r);
             out.events.str(r.to_json(true).dump());
             check_record(s, r, final, opi);
+            check_alignment(s, r, opi);
+            if (r.align_null)
+                s.align_failed_at_frame = r.n_frames;
+            else if (s.align_failed_at_frame == r.n_frames)
+                out.probes["align.second_call_after_failure"]++;
             out.probes[r.align_null ? "dec.alignment_null" : "dec.alignment_ok"]++;
         } else {
             Rec r = capture(s.d);
@@ -281,8 +416,10 @@ struct Exec {
         out.sim_seconds += (double)s.clip.size() / 16000.0;
         Rec r = capture(s.d);
         bool want_align = op.getb("align", false) || s.probe;
-        if (want_align)
+        if (want_align) {
             capture_alignment(s.d, r);
+            check_alignment(s, r, opi);
+        }
         Json rj = r.to_json(true);
         out.events.str(rj.dump());
         check_record(s, r, true, opi);
@@ -353,6 +490,8 @@ struct Exec {
                 for (auto &kv : op["set"].o) {
                     if (kv.second.t == Json::BOOL)
                         config_set_bool(s.d->config, kv.first.c_str(), kv.second.b);
+                    else if (kv.first == "maxhmmpf")
+                        config_set_int(s.d->config, kv.first.c_str(), (long)kv.second.dbl());
                     else
                         config_set_float(s.d->config, kv.first.c_str(), kv.second.dbl());
                 }
@@ -544,6 +683,7 @@ struct Gen {
     Json ops = Json::array();
     int next_probe = 0;
     bool allow_align = true; // alignment requests belong to C04/C07/C08/C09, not to C01/C03
+    bool align_heavy = false; // C04: most queries are alignment requests, often repeated; wip=pip=1 in half of the runs
 
     Json knobs()
     {
@@ -560,9 +700,15 @@ struct Gen {
             k.set("fsgusefiller", r.chance(0.5));
         if (r.chance(0.3))
             k.set("fsgusealtpron", r.chance(0.5));
-        if (r.chance(0.25)) {
+        if (r.chance(align_heavy ? 0.6 : 0.25)) {
             k.set("wip", 1.0);
             k.set("pip", 1.0);
+            if (align_heavy && r.chance(0.8)) { // no pruning at all: the setting in which C04's score clause is well defined
+                k.set("beam", 0.0);
+                k.set("pbeam", 0.0);
+                k.set("wbeam", 0.0);
+                k.set("maxhmmpf", -1.0);
+            }
         }
         return k;
     }
@@ -624,7 +770,7 @@ struct Gen {
     {
         Json q = Json::object();
         q.set("op", "query");
-        switch (r.weighted({ 50, 15, 15, allow_align ? 20 : 0 })) {
+        switch (r.weighted({ align_heavy ? 15 : 50, align_heavy ? 5 : 15, align_heavy ? 5 : 15, allow_align ? (align_heavy ? 75 : 20) : 0 })) {
         case 0: q.set("what", "rec"); break;
         case 1: q.set("what", "hyp"); break;
         case 2:
@@ -646,6 +792,9 @@ struct Gen {
             if (full && r.chance(qrate))
                 push(query(false), d);
             push(f, d);
+            // a partial-result request between the (single) feed call and end_utt: no frame is searched in between
+            if (r.chance(full ? 0.5 : qrate))
+                push(query(allow_align && !full), d);
             return;
         }
         int style = (int)r.below(7);
@@ -685,8 +834,11 @@ struct Gen {
             left -= len * rep;
             items++;
             first = false;
-            if (r.chance(qrate))
+            if (r.chance(qrate)) {
                 push(query(allow_align), d);
+                if (align_heavy && r.chance(0.4))
+                    push(query(allow_align), d); // again, without new audio
+            }
         }
     }
     std::string cmn_text(const std::string &tmpl)
@@ -752,12 +904,14 @@ static const char *pick_tmpl(Rng &r)
 
 struct DecWorld : World {
     const char *name() const override { return "dec"; }
-    std::vector<std::string> properties() const override { return { "C01", "C03", "C07", "C08" }; }
+    std::vector<std::string> properties() const override { return { "C01", "C03", "C04", "C07", "C08" }; }
     int64_t default_runs(const std::string &p, int tier) const override
     {
         if (p == "C07" || p == "C08")
             return p == "C08" ? (tier ? 30000 : 600) : (tier ? 40000 : 900);
-        return tier ? 60000 : 1200;
+        if (p == "C04")
+            return tier ? 50000 : 1000;
+        return tier ? 60000 : 1600;
     }
     int watchdog_s(const std::string &) const override { return 120; }
     void setup(const std::string &, int) override { build_template(); }
@@ -776,6 +930,12 @@ struct DecWorld : World {
             return common + "C08: 2-3 decoders with 1-5 earlier utterances each (any grammar/audio/mode/outcome), interleaved call by call, then a probe utterance (decoded twice) whose "
                             "record must equal that of a pristine sibling process. Non-trivial: the probed decoder had at least one earlier utterance and the probe produced a "
                             "segmentation; distinct = distinct plan digest";
+        if (p == "C04")
+            return common + "C04: decoder_alignment is requested at plan-chosen points (mid-utterance on partial results, twice in a row, again after more audio, after end_utt; grow and "
+                            "circular buffering; compallsen and default scoring; wip=pip=1 in most runs). Every non-NULL alignment is checked: words = dictionary words of the segmentation "
+                            "read at the same instant (names, start frames, durations), phones = dictionary pronunciation (decoder_lookup_word), states = emitting states of the model, children "
+                            "partition parents with positive durations, levels contiguous from frame 0, parent score = sum of children, and (only with compallsen and wip=pip=1, where the two "
+                            "passes are commensurable) word score = first-pass acoustic score. Non-trivial: at least one non-NULL alignment was checked; distinct = distinct plan digest";
         return common + "C01/C03: every partial and final record is checked against the tiling / hypothesis / score-sum / frame-conservation rules and against prefix- resp. full "
                         "acceptance by the reference automaton. Non-trivial: at least one record with a non-empty segmentation was checked; distinct = distinct plan digest";
     }
@@ -871,6 +1031,14 @@ struct DecWorld : World {
                 for (int k = 0; k < burst && pos[(size_t)d] < scripts[(size_t)d].a.size(); ++k)
                     g.ops.push(scripts[(size_t)d].a[pos[(size_t)d]++]);
             }
+        } else if (prop == "C04") {
+            // alignment requests everywhere: mid-utterance, twice in a row, after more audio, after the end
+            std::string t = r.chance(0.55) ? "enc" : pick_tmpl(r);
+            add_dec(t);
+            g.align_heavy = true;
+            int nu = (int)r.weighted({ 0, 65, 30, 5 });
+            for (int u = 0; u < nu; ++u)
+                g.utterance(0, t, u == 0 || r.chance(0.5), false, r.chance(0.2), r.chance(0.1), 48000, r.chance(0.8) ? 0.4 : 0.1, r.chance(0.2), r.chance(0.3));
         } else { // C01, C03
             std::string t = pick_tmpl(r);
             add_dec(t);
@@ -992,7 +1160,9 @@ struct DecWorld : World {
                     seen++;
                 }
             out.nontrivial = any_probe && hist && out.probes.count("dec.final_result");
-        } else
+        } else if (prop == "C04")
+            out.nontrivial = out.probes.count("align.hierarchy_checked") > 0;
+        else
             out.nontrivial = out.probes.count("dec.final_result") || out.probes.count("dec.partial_result");
     }
 
